@@ -219,7 +219,7 @@ def run(spec):
     def solve(gauss):
         vals = _rho(mg.points, gauss)
         if kind == 'ivp' or spec.get('ivp'):
-            return solve_poisson_ivp(mg, vals, inv, r_interval=(float(np.max(radial.points)), float(np.min(radial.points))))
+            return solve_poisson_ivp(mg, vals, inv, r_interval=(float(spec.get('r0', np.max(radial.points))), float(spec.get('r1', np.min(radial.points)))))
         return solve_poisson_bvp(mg, vals, inv, **kw)
     if kind in ('bvp', 'ivp'):
         g = spec['gauss']
@@ -1401,6 +1401,10 @@ def _cases(ctx: Ctx, budget: str):
         else:
             gi = {"oned": "Trapezoidal", "n": ctx.rng.randrange(400, 801), "tf": "Linear", "rmin": 1e-3, "R": round(ctx.rng.uniform(50, 100), 2), "deg": ctx.rng.choice([7, 9, 11])}
         add("poisson.solve_poisson_ivp", kind="ivp", grid=gi, atoms=[Z], gauss=_centred(ctx, Z, k=ctx.rng.randrange(1, 3)), rlo=0.05)
+        # initial value solver started INSIDE the radial grid (r_interval[0] below the outermost shell, as with the default
+        # r_interval=(1000, 1e-5) on a Becke grid reaching 1e4): the asymptotic initial data belong to the starting radius
+        add("poisson.solve_poisson_ivp:inner-start", kind="ivp", grid={"oned": "GaussLegendre", "n": ctx.rng.randrange(120, 161), "tf": "Becke", "rmin": 1e-4, "R": 1.5, "deg": ctx.rng.choice([3, 5])},
+            atoms=[Z], gauss=_centred(ctx, Z, k=ctx.rng.randrange(1, 3)), rlo=0.05, r0=round(ctx.rng.uniform(42.0, 80.0), 1), r1=0.02)
         # linearity (3 solves)
         add("poisson.solve_poisson_bvp:linearity", kind="linear", grid=_g1(ctx, deg=11), atoms=[Z], gauss=_centred(ctx, Z, 1), gauss2=_centred(ctx, Z, 2),
             a=round(ctx.rng.uniform(-2, 2), 3), b=round(ctx.rng.uniform(0.5, 3), 3), options={"remove_large_pts": 10.0})
